@@ -26,6 +26,14 @@ impl<T: Send + Sync> Drop for ConIterOfVec<T> {
         if current <= self.vec_len {
             let _remaining_vec_to_be_dropped = unsafe { self.split_off_right(current) };
         }
+
+        // release the buffer of the vector: the elements at its beginning have been moved out,
+        // the remaining ones are split off and dropped above
+        let vec = self.vec.get_mut();
+        unsafe {
+            vec.set_len(0);
+            ManuallyDrop::drop(vec);
+        }
     }
 }
 
